@@ -774,3 +774,163 @@ def rule_instance(ctx):
                 res.inst(ikey, t["sp"]["file"], t["sp"]["line"], "ok", "instance established on every path")
     res.require_floor(6)
     return res
+
+
+def rule_tyrule(ctx):
+    """R-TYRULE: the typing rule of every simple term form, read off the folded `Check::check`"""
+    from .. import backend
+    from ..interp import Adt, Vec, Sym, Interp, MapVal
+    fx = ctx.fx
+    res = RuleResult("R-TYRULE", "the typing rule each simple term form implements, read off its `Check::check` by abstract interpretation (symbolic "
+                     "subterms; the recursive `check` calls, `check_equality`, `Ty::check` and `check_args` are recorded with the context and "
+                     "the type they receive) and compared with the rule of the language: literals and arithmetic are integers with integer "
+                     "operands; both branches of a conditional have the expected type and its operands are integers; `let` checks the bound "
+                     "term at the annotated type and the body at the expected type with the variable added as a producer of that type; "
+                     "`label` adds its covariable at the expected type; `goto` checks its term at the type of the target covariable; `exit` "
+                     "and `print` take integers; a variable has the type of its innermost binding; a call has the callee's return type and "
+                     "its arguments are checked against the callee's parameters")
+    F = "fun::syntax::"
+    NONE = Adt("core::option::Option", "None", {})
+
+    def some(v):
+        return Adt("core::option::Option", "Some", {"0": v})
+
+    def decl(name):
+        return Adt(F + "types::Ty", "Decl", {"span": NONE, "name": name, "type_args": Adt(F + "types::TypeArgs", "TypeArgs", {"span": NONE, "args": Vec([])})})
+
+    def binding(name, chi, ty):
+        return Adt(F + "context::ContextBinding", "ContextBinding", {"var": name, "chi": Adt(F + "context::Chirality", chi, {}), "ty": ty})
+
+    def tyname(I, v):
+        v = I.deref(v)
+        if isinstance(v, Adt) and v.path == F + "types::Ty":
+            return "i64" if v.variant == "I64" else "decl:%s" % (I.deref(v.fields.get("name")),)
+        if isinstance(v, Sym):
+            return "$" + v.name
+        return "?%r" % (v,)
+
+    def ctxsnap(I, v):
+        v = I.deref(v)
+        if isinstance(v, Adt) and isinstance(I.deref(v.fields.get("bindings")), Vec):
+            out = []
+            for b in I.deref(v.fields["bindings"]).items:
+                b = I.deref(b)
+                chi = I.deref(b.fields.get("chi"))
+                out.append((I.deref(b.fields.get("var")), chi.variant if isinstance(chi, Adt) else "?", tyname(I, b.fields.get("ty"))))
+            return tuple(out)
+        return ("?",)
+
+    BASE = (("x", "Prd", "decl:TX"), ("a", "Cns", "decl:TA"))
+
+    def base_ctx():
+        return Adt(F + "context::TypingContext", "TypingContext", {"span": Sym("ctxspan"), "bindings": Vec([binding("x", "Prd", decl("TX")), binding("a", "Cns", decl("TA"))])})
+
+    def run(form, fields):
+        adt = F + "terms::" + form
+        key = "<%s as fun::typing::check::Check>::check" % adt
+        f = fx.fn(key)
+        events = []
+
+        def hook(I, p, fr, t, args):
+            n = t.get("callee_name")
+            ck = t.get("callee_key") or ""
+            if n == "check" and t.get("callee_trait") == "fun::typing::check::Check" and fr.f["key"] == key:
+                v = I.deref(args[0])
+                if isinstance(v, Adt) and v.path == "core::option::Option":
+                    if v.variant == "None":
+                        return Adt("core::result::Result", "Ok", {"0": v})
+                    v = I.deref(v.fields["0"])
+                name = v.name if isinstance(v, Sym) else repr(v)
+                p.events.append(("check", name, ctxsnap(I, args[2]), tyname(I, args[3])))
+                return Adt("core::result::Result", "Ok", {"0": args[0]})
+            if n == "check_equality" and ck.startswith("fun::typing::check"):
+                p.events.append(("eq", frozenset([tyname(I, args[2]), tyname(I, args[3])])))
+                return Adt("core::result::Result", "Ok", {"0": Adt(None, None, {})})
+            if n == "check" and "types::Ty::check" in ck:
+                p.events.append(("tycheck", tyname(I, args[0])))
+                return Adt("core::result::Result", "Ok", {"0": Adt(None, None, {})})
+            if n == "check_args" and ck.startswith("fun::typing::check"):
+                p.events.append(("args", ctxsnap(I, args[2]), ctxsnap(I, args[4])))
+                return Adt("core::result::Result", "Ok", {"0": args[3]})
+            return NotImplemented
+        A = fx.adts[adt]
+        vals = {}
+        for fd in A["variants"][0]["fields"]:
+            vals[fd["name"]] = fields.get(fd["name"], Sym("self." + fd["name"]))
+        st_fields = {fd["name"]: MapVal() for fd in fx.adts["fun::typing::symbol_table::SymbolTable"]["variants"][0]["fields"]}
+        if "defs" in fields.get("__table__", {}):
+            st_fields["defs"] = fields["__table__"]["defs"]
+        st = Adt("fun::typing::symbol_table::SymbolTable", "SymbolTable", st_fields)
+        I = Interp(fx, hooks=[hook], max_depth=4, max_paths=64)
+        outs = I.run(f, [Adt(adt, A["variants"][0]["name"], vals), st, base_ctx(), decl("EXP")])
+        msg = backend.fold_verdict(outs, "R-TYRULE: %s" % form)
+        outs = [o for o in outs if not getattr(o, "diverged", None)]
+        return f, outs, msg
+
+    def judge(form, fields, want, label="", want_err=False):
+        nonlocal_n[0] += 1
+        f, outs, msg = run(form, fields)
+        ikey = "%s%s" % (form.split("::")[-1], label)
+        if msg:
+            res.inst(ikey, f["sp"]["file"], f["sp"]["line"], "violation")
+            res.violate(ikey, msg, f["sp"]["file"], f["sp"]["line"])
+            return
+        oks = [o for o in outs if isinstance(o.result, Adt) and o.result.variant == "Ok"]
+        errs = [o for o in outs if isinstance(o.result, Adt) and o.result.variant == "Err"]
+        if len(oks) + len(errs) != len(outs):
+            raise AnalysisError("R-TYRULE: %s%s does not fold to Ok/Err results" % (form, label))
+        if want_err:
+            if oks:
+                res.inst(ikey, f["sp"]["file"], f["sp"]["line"], "violation")
+                res.violate(ikey, "%s: the checker accepts this form although the rule rejects it (%s)" % (form.split("::")[-1], label.strip(":")), f["sp"]["file"], f["sp"]["line"])
+            else:
+                res.inst(ikey, f["sp"]["file"], f["sp"]["line"], "ok", "rejected")
+            return
+        if len(oks) != 1:
+            raise AnalysisError("R-TYRULE: %s%s has %d accepting paths when every premise holds (1 expected)" % (form, label, len(oks)))
+        got = set(oks[0].events)
+        wantset = set(want)
+        if got == wantset:
+            res.inst(ikey, f["sp"]["file"], f["sp"]["line"], "ok", "%d premises" % len(want))
+            return
+        missing = sorted(map(str, wantset - got))
+        extra = sorted(map(str, got - wantset))
+        res.inst(ikey, f["sp"]["file"], f["sp"]["line"], "violation")
+        res.violate(ikey, "the typing rule implemented for %s%s differs from the rule of the language: premises missing %s; premises not in the rule %s "
+                    "(a premise is the term checked, the context it is checked in, and the type it is checked against)" %
+                    (form.split("::")[-1], (" (" + label.strip(":") + ")") if label else "", missing or "none", extra or "none"), f["sp"]["file"], f["sp"]["line"])
+
+    nonlocal_n = [0]
+    EXP = "decl:EXP"
+
+    def chk(field, ctx_, ty):
+        return ("check", "self." + field, ctx_, ty)
+
+    def eq(a, b):
+        return ("eq", frozenset([a, b]))
+    judge("literal::Lit", {}, [eq(EXP, "i64")])
+    judge("op::Op", {}, [eq(EXP, "i64"), chk("fst", BASE, "i64"), chk("snd", BASE, "i64")])
+    judge("ifc::IfC", {"snd": some(Sym("self.snd"))}, [chk("fst", BASE, "i64"), chk("snd", BASE, "i64"), chk("thenc", BASE, EXP), chk("elsec", BASE, EXP)], ":two-operands")
+    judge("ifc::IfC", {"snd": NONE}, [chk("fst", BASE, "i64"), chk("thenc", BASE, EXP), chk("elsec", BASE, EXP)], ":zero-form")
+    judge("print::PrintI64", {}, [chk("arg", BASE, "i64"), chk("next", BASE, EXP)])
+    judge("let::Let", {"variable": "v", "var_ty": decl("TV")},
+          [("tycheck", "decl:TV"), chk("bound_term", BASE, "decl:TV"), chk("in_term", BASE + (("v", "Prd", "decl:TV"),), EXP)])
+    judge("let::Let", {"variable": "x", "var_ty": decl("TV")},
+          [("tycheck", "decl:TV"), chk("bound_term", BASE, "decl:TV"), chk("in_term", BASE + (("x", "Prd", "decl:TV"),), EXP)], ":shadowing")
+    judge("label::Label", {"label": "k"}, [chk("term", BASE + (("k", "Cns", EXP),), EXP)])
+    judge("goto::Goto", {"target": "a"}, [chk("term", BASE, "decl:TA")])
+    judge("goto::Goto", {"target": "zz"}, [], ":unbound-target", want_err=True)
+    judge("goto::Goto", {"target": "x"}, [], ":target-is-a-variable", want_err=True)
+    judge("exit::Exit", {}, [chk("arg", BASE, "i64")])
+    judge("paren::Paren", {}, [chk("inner", BASE, EXP)])
+    judge("var::XVar", {"var": "x", "ty": NONE, "chi": NONE}, [eq(EXP, "decl:TX")])
+    judge("var::XVar", {"var": "x", "ty": some(decl("ANN")), "chi": NONE}, [eq(EXP, "decl:TX"), eq("decl:ANN", "decl:TX")], ":annotated")
+    judge("var::XVar", {"var": "x", "ty": NONE, "chi": some(Adt(F + "context::Chirality", "Cns", {}))}, [], ":marked-covariable", want_err=True)
+    judge("var::XVar", {"var": "a", "ty": NONE, "chi": NONE}, [], ":name-of-a-covariable", want_err=True)
+    judge("var::XVar", {"var": "zz", "ty": NONE, "chi": NONE}, [], ":unbound", want_err=True)
+    sig_ctx = Adt(F + "context::TypingContext", "TypingContext", {"span": Sym("sigspan"), "bindings": Vec([binding("p", "Prd", decl("TP"))])})
+    table = {"defs": MapVal([("f", Adt(None, None, {"0": sig_ctx, "1": decl("RET")}))])}
+    judge("call::Call", {"name": "f", "__table__": table}, [eq(EXP, "decl:RET"), ("args", BASE, (("p", "Prd", "decl:TP"),))])
+    judge("call::Call", {"name": "g", "__table__": table}, [], ":undefined", want_err=True)
+    res.require_floor(15)
+    return res
